@@ -211,6 +211,7 @@ func (r *Recorder) ClearFaults() {
 	r.mu.Lock()
 	r.Faults = map[int]Fault{}
 	r.persistent = false
+	r.injected = 0
 	r.mu.Unlock()
 }
 
